@@ -4,6 +4,7 @@
    from RFC 4616, RFC 2195, the XOAUTH2 format and RFC 5802 in Sasl.v.  H / HMAC are universally quantified. *)
 From Coq Require Import String ZArith.
 From Verif Require Import Bytes Base64 Scram AuthLoop Sasl Crypto SaslRun.
+From VerifGen Require Import Gen.
 From VerifProofs Require Import SaslProofs.
 Open Scope N_scope.
 
@@ -76,6 +77,44 @@ Theorem C14_retry_fresh_nonce : forall H HMAC hsize precis cfg id st r1 r2 rands
   ss_nonce (fst s1) = b64enc r1 /\ ss_nonce (fst s2) = b64enc r2.
 Proof. exact scram_two_attempts_two_draws. Qed.
 Print Assumptions C14_retry_fresh_nonce.
+
+(* ---- reuse of one Auth value for several exchanges (a second dial, a retry after 454 / 535 / a lost connection) ----
+   T1: loginAuth.Start resets its step counter *)
+Theorem C14_source_login_start_resets : Gen.login_start_resets_step = true.
+Proof. exact gen_login_start_resets. Qed.
+Print Assumptions C14_source_login_start_resets.
+
+(* LOGIN: for every history (any step counter [s] the value was left with) and every list of reply scripts, the sequence of
+   exchanges on the reused value is the sequence on a fresh value: same result, same lines, same log, exchange by exchange *)
+Theorem C14_login_reuse_is_fresh : forall a si lad (s : N) scripts,
+  auth_seq (login_mech a si) lad s scripts = auth_seq (login_mech a si) lad 0 scripts.
+Proof. exact login_reuse_is_fresh. Qed.
+Print Assumptions C14_login_reuse_is_fresh.
+
+(* PLAIN, CRAM-MD5, XOAUTH2 carry no state *)
+Theorem C14_stateless_reuse_is_fresh : forall (m : mech unit) lad (s : unit) scripts,
+  auth_seq m lad s scripts = auth_seq m lad tt scripts.
+Proof. exact stateless_reuse_is_fresh. Qed.
+Print Assumptions C14_stateless_reuse_is_fresh.
+
+(* SCRAM: a call on a value in any state is the call on the reset value (with C15_source_has_repairs: Start resets);
+   fresh nonces per attempt: C14_retry_fresh_nonce.  PARTIAL: a reset value still differs from a fresh one in the cached
+   bindData field (rewritten by every -PLUS client-first before it is read, never read otherwise) - that irrelevance is
+   not proved, it is covered by the reuse sessions of the correspondence. *)
+Theorem C14_scram_reuse_starts_reset_partial : forall H HMAC hsize precis cfg id lad a0 st rands script,
+  start_resets cfg = true ->
+  auth (scram_mech H HMAC hsize precis cfg id) lad a0 (st, rands) script =
+  auth (scram_mech H HMAC hsize precis cfg id) lad a0 (ss_reset st, rands) script.
+Proof. exact scram_reuse_starts_reset. Qed.
+Print Assumptions C14_scram_reuse_starts_reset_partial.
+
+(* without the reset in Start the statement is false (LOGIN value left at step 2 by a completed exchange) *)
+Theorem C14_login_reuse_without_reset_refuted :
+  exists a si script,
+    ro_class (obs_of (auth (login_mech_cfg false a si) false false 2 script)) <>
+    ro_class (obs_of (auth (login_mech_cfg false a si) false false 0 script)).
+Proof. exact login_reuse_without_reset_refuted. Qed.
+Print Assumptions C14_login_reuse_without_reset_refuted.
 
 (* internal/pbkdf2.Key (block loop, U/T xor loop, transliterated in Scram.pbkdf2_key) is RFC 5802's Hi when the key
    length is the hash length (one block), for every HMAC with outputs of one length and every iteration count >= 1 *)
